@@ -51,8 +51,15 @@ def plan(tier, seed):
     return {"nshards": 16, "params": {"soft_s": 300 if quick else 1200, "nprograms": 10 if quick else 110, "ninputs": 4 if quick else 8}, "hard_timeout_s": 700 if quick else 3400}
 
 
+def _templates(rng):
+    from ..ctemplates import any_ctemplate
+    from ..templates import any_template
+
+    return any_ctemplate(rng) if rng.random() < 0.7 else any_template(rng)
+
+
 def shard(ctx):
-    run_cstream(ctx, knobs, on_result, ninputs=ctx.params["ninputs"])
+    run_cstream(ctx, knobs, on_result, ninputs=ctx.params["ninputs"], templates=_templates, template_prob=0.3)
 
 
 def finish(agg, tier):
